@@ -54,7 +54,26 @@ func GenConcurrent(r *sim.Rand, tier string) *drv.Plan {
 	if tier == "thorough" {
 		nb = r.Range(3, 12)
 	}
+	// one run in six has one LARGE batch (1 100 - 5 000 operations over its own
+	// keys): an implementation that applies a batch in chunks (releasing its
+	// lock in between, flushing a buffer) is atomic for small batches only
+	bigAt := -1
+	if r.Chance(1, 6) {
+		bigAt = r.Intn(nb)
+	}
 	for b := 0; b < nb; b++ {
+		if b == bigAt {
+			n := r.Pick(1100, 1500, 2100, 3000, 5000)
+			for i := 0; i < n; i++ {
+				id++
+				ctr++
+				k := []byte(fmt.Sprintf("z%05d", (i*7919)%n))
+				p.Steps = append(p.Steps, drv.Step{ID: id, Op: "cb.set", K: k, V: []byte(fmt.Sprintf("B%d.%d", b, ctr)), Codec: view})
+			}
+			id++
+			p.Steps = append(p.Steps, drv.Step{ID: id, Op: "cb.write", N: int64(r.Intn(2)), Codec: view})
+			continue
+		}
 		nops := r.Range(2, 6)
 		for i := 0; i < nops; i++ {
 			id++
@@ -115,6 +134,13 @@ func applyOps(cur []KV, ops []drv.Step) []KV {
 		out = append(out, KV{K: []byte(k), V: m[k]})
 	}
 	return out
+}
+
+func clip(s string, n int) string {
+	if len(s) <= n {
+		return s
+	}
+	return s[:n] + "..."
 }
 
 func sameKVs(a, b []KV) bool {
@@ -307,7 +333,7 @@ func ExecConcurrent(p *drv.Plan) *Result {
 						ok = sameKVs(got, st.states[j])
 					}
 					if !ok {
-						report(s, "C18.batch-atomic", "torn-batch", "snapshot/"+site, fmt.Sprintf("an iteration taken while batches %d..%d were complete/under way yields %s: not the contents after any whole number of batches (after %d: %s; after %d: %s)", lo, hi, fmtKVs(got), lo, fmtKVs(st.states[lo]), hi, fmtKVs(st.states[hi])))
+						report(s, "C18.batch-atomic", "torn-batch", "snapshot/"+site, fmt.Sprintf("an iteration taken while batches %d..%d were complete/under way yields %d pairs %s: not the contents after any whole number of batches (after %d: %d pairs %s; after %d: %d pairs %s)", lo, hi, len(got), clip(fmtKVs(got), 400), lo, len(st.states[lo]), clip(fmtKVs(st.states[lo]), 300), hi, len(st.states[hi]), clip(fmtKVs(st.states[hi]), 300)))
 					}
 					if hi > lo {
 						res.Probes["snapshot_during_write"]++
@@ -333,6 +359,11 @@ func ExecConcurrent(p *drv.Plan) *Result {
 		}
 	}
 	res.Probes["mode.concurrent"]++
+	for _, b := range batches {
+		if len(b) > 1000 {
+			res.Probes["concurrent.large-batch"]++
+		}
+	}
 	res.Violations = vios
 	res.NonTrivial = sched.Switches >= 2
 	adj := sched.Adjacency()
